@@ -408,6 +408,9 @@ func runC12(c *Ctx) {
 			finger := "put-chunked:" + variant
 			if obs == "rejected-but-state-changed" {
 				finger = "rejected-upload-changed-state"
+				if variant == "wellformed" {
+					finger = "rejected-upload-changed-state:wellformed" // not what D16 describes
+				}
 			}
 			if obs != "rejected" && !strings.HasPrefix(obs, "stored ") {
 				// keep fingerprint
@@ -426,6 +429,9 @@ func runC12(c *Ctx) {
 				// complete and its decoded length is the declared one)
 				if r.Status == 200 && model == "rejected" {
 					finger = "accepted-bad-chunked-upload"
+					if variant != "declared-longer" && variant != "declared-shorter" && variant != "truncated" {
+						finger = "accepted-bad-chunked-upload:" + variant // D16 is about lengths only
+					}
 				}
 				c.mismatch(Mismatch{Kind: "spec", Backend: kind, Case: []string{line}, Impl: trunc(obs, 200), Model: trunc(model, 200), Spec: trunc(model, 200), Finger: finger})
 			}
